@@ -1,11 +1,21 @@
 import SkoolVerif.Proofs.Z80RleLemmas
+import SkoolVerif.Proofs.SnapHeaderLemmas
+import SkoolVerif.Proofs.SnapBankLemmas
 /-!
-C09 — snapshot round trips.  Property theorems only; helper lemmas live in
-`SkoolVerif/Proofs/`.  Model: `SkoolVerif/Model/Z80Rle.lean` (hand model of
-`Z80._make_z80_ram_block` / `Z80._decompress`, tied to /repo by the
-correspondence check `harness/props/c09.py`).
+C09 — snapshot round trips and snapshot editing.  Property theorems only; helper lemmas live in
+`SkoolVerif/Proofs/`.  Hand models, each tied to /repo by the correspondence check
+`harness/props/c09.py` on every run:
+
+* `Model/Z80Rle.lean`   — `Z80._make_z80_ram_block` / `Z80._decompress` / the page loop of `Z80._read`
+  / the page writer of `Z80.data`;
+* `Model/SnapHeader.lean` — header fields whose encoding is not the identity (T-states of both
+  formats, 16-bit words, R bit 7 + border in byte 12, IM + issue 2 in byte 29);
+* `Model/SnapEdit.lean` — `poke`, `move`, `patch`, `_get_page` on a flat list and on a `Memory`.
 -/
 namespace C09
+
+/-! ## The Z80 run-length coder -/
+section Rle
 open Z80Rle
 
 /-- The Z80 run-length decoder inverts the encoder for **every** byte string
@@ -50,5 +60,710 @@ example : enc [237, 0, 0, 0, 0, 0, 0] = [237, 0, 237, 237, 5, 0] := by decide
 example : enc [1, 1, 1, 1, 237] = [1, 1, 1, 1, 237] := by decide
 example : dec [237, 237, 0, 1] = .error .zeroRun := by simp [dec]
 example : dec [237, 237, 3] = .error .truncated := by simp [dec]
+
+end Rle
+
+/-! ## The version 2/3 page-block stream -/
+section Pages
+open Z80Rle
+
+/-- One block followed by anything: the reader loop peels off exactly the block. -/
+theorem read_one_block (d : List Nat) (page : Nat) (rest : List Nat) (hd : d.length = 16384) :
+    readPages (ramBlockPage d page ++ rest) = pageCons ((page : Int) - 3, d) (readPages rest) := by
+  have hlen := page_length_field_ok d hd
+  have hfield : (enc d).length % 256 + 256 * ((enc d).length / 256) = (enc d).length := by omega
+  have hcons : ramBlockPage d page ++ rest
+      = (enc d).length % 256 :: (enc d).length / 256 :: page :: (enc d ++ rest) := by
+    simp [ramBlockPage]
+  rw [hcons, readPages]
+  simp only [hfield]
+  have hne : (enc d).length ≠ 65535 := by omega
+  simp only [hne, if_false, List.take_left' rfl, List.drop_left' rfl, rle_roundtrip d, hd, ne_eq,
+    not_true_eq_false, if_false]
+
+/-- Parsing the concatenation of the page blocks of any list of (page number, 16K page) pairs
+returns the pages in order, each under bank number `page - 3`. -/
+theorem pages_stream_roundtrip : ∀ (ps : List (Nat × List Nat)), (∀ p ∈ ps, p.2.length = 16384) →
+    readPages (ps.flatMap (fun p => ramBlockPage p.2 p.1)) = .ok (ps.map (fun p => ((p.1 : Int) - 3, p.2)))
+  | [], _ => by simp [readPages]
+  | p :: ps, h => by
+    rw [List.flatMap_cons, read_one_block p.2 p.1 _ (h p List.mem_cons_self),
+      pages_stream_roundtrip ps (fun q hq => h q (List.mem_cons_of_mem _ hq))]
+    simp [pageCons]
+
+/-- the banks `Z80.data()` writes, as the reader's assignments -/
+def presentBanks : List (Option (List Nat)) → Nat → List (Int × List Nat)
+  | [], _ => []
+  | none :: bs, page => presentBanks bs (page + 1)
+  | some d :: bs, page =>
+    if d = [] then presentBanks bs (page + 1) else ((page : Int) - 3, d) :: presentBanks bs (page + 1)
+
+/-- `Z80.data()` then `Z80._read`: every present bank comes back under its own index, in order
+(`banks[k]` is written as page `k + 3`; `first = 3` gives bank numbers `0, 1, 2, …`). -/
+theorem banks_write_read : ∀ (banks : List (Option (List Nat))) (first : Nat),
+    (∀ d, some d ∈ banks → d = [] ∨ d.length = 16384) →
+    readPages (writePages banks first) = .ok (presentBanks banks first)
+  | [], _, _ => by simp [writePages, presentBanks, readPages]
+  | none :: bs, first, h => by
+    simp only [writePages, presentBanks]
+    exact banks_write_read bs (first + 1) (fun d hd => h d (List.mem_cons_of_mem _ hd))
+  | some d :: bs, first, h => by
+    have ih := banks_write_read bs (first + 1) (fun d hd => h d (List.mem_cons_of_mem _ hd))
+    simp only [writePages, presentBanks]
+    split
+    · exact ih
+    · rename_i hne
+      have hd : d.length = 16384 := by
+        rcases h d List.mem_cons_self with h' | h'
+        · exact absurd h' hne
+        · exact h'
+      rw [read_one_block d first _ hd, ih]; rfl
+
+example : presentBanks [some [1], none, some [], some [2]] 3 = [(0, [1]), (3, [2])] := by decide
+
+end Pages
+
+/-! ## Header fields whose encoding is not the identity
+
+Model: `SkoolVerif/Model/SnapHeader.lean` (tied to `Z80._set_registers/_set_state/_read` and
+`SZX._add_zxstz80regs/_read` by the correspondence check). -/
+section Header
+open SnapHeader PyInt
+
+/-- Z80 v3 T-states (three bytes, quarter-frame countdown): written then read gives the frame
+position, for every integer clock value, on both frame durations. -/
+theorem z80_tstates_roundtrip (t : Int) :
+    z80ReadT 69888 (z80WriteT 69888 t) = t % 69888 ∧ z80ReadT 70908 (z80WriteT 70908 t) = t % 70908 :=
+  ⟨z80_t_48 t, z80_t_128 t⟩
+
+/-- The three bytes written are bytes (the third one in 0..3). -/
+theorem z80_tstates_bytes (frame t : Int) (hf : frame = 69888 ∨ frame = 70908) :
+    let b := z80WriteT frame t
+    (0 ≤ b.1 ∧ b.1 < 256) ∧ (0 ≤ b.2.1 ∧ b.2.1 < 256) ∧ (0 ≤ b.2.2 ∧ b.2.2 < 4) :=
+  z80_t_bytes frame t hf
+
+/-- SZX `dwCyclesStart` (fourth byte left 0): written then read gives the frame position. -/
+theorem szx_tstates_roundtrip (frame t : Int) (hf : frame = 69888 ∨ frame = 70908) :
+    szxReadT4 ((szxWriteT frame t).1, (szxWriteT frame t).2.1, (szxWriteT frame t).2.2, 0) = t % frame := by
+  rw [szx_t4]; exact szx_t frame t hf
+
+/-- The same clock written in the two formats reads back identically. -/
+theorem formats_agree_tstates (t : Int) :
+    z80ReadT 69888 (z80WriteT 69888 t) = szxReadT (szxWriteT 69888 t) ∧
+    z80ReadT 70908 (z80WriteT 70908 t) = szxReadT (szxWriteT 70908 t) := by
+  rw [z80_t_48, z80_t_128, szx_t 69888 t (.inl rfl), szx_t 70908 t (.inr rfl)]
+  exact ⟨rfl, rfl⟩
+
+/-- 16-bit registers: every value in range survives; any integer is stored modulo 65536; and the
+Z80 writer (`(value & 65535) // 256`) and the SZX writer (`(value // 256) % 256`) store the same two
+bytes for every integer, negative ones included. -/
+theorem word_roundtrip (v : Int) :
+    (0 ≤ v ∧ v < 65536 → readWord (writeWord v) = v) ∧ readWord (writeWord v) = v % 65536 ∧
+    writeWord v = szxWriteWord v :=
+  ⟨word v, word_mod v, word_writers_agree v⟩
+
+/-- Byte 12 of the Z80 header holds bit 7 of R (bit 0), the border (bits 1-3) and the compression
+flag (bit 5).  Setting R: R reads back (with its bit 7), border and flag are untouched.  Setting the
+border: it reads back, R's bit 7 and the flag are untouched.  For every byte value. -/
+theorem r_and_border_share_byte12 (h12 : Nat) (hh : h12 < 256) :
+    (∀ r : Nat, r < 256 →
+      readR (writeR h12 r).1 (writeR h12 r).2 = r ∧ readBorder (writeR h12 r).2 = readBorder h12 ∧
+      land (writeR h12 r).2 32 = land h12 32 ∧ 0 ≤ (writeR h12 r).2 ∧ (writeR h12 r).2 < 256) ∧
+    (∀ c : Nat, c < 8 →
+      readBorder (writeBorder h12 c) = c ∧ (writeBorder h12 c) % 2 = (h12 : Int) % 2 ∧
+      land (writeBorder h12 c) 32 = land h12 32 ∧ 0 ≤ writeBorder h12 c ∧ writeBorder h12 c < 256) := by
+  constructor
+  · intro r hr
+    have := allLt_spec (allLt_spec r_all h12 hh) r hr
+    simp only [Bool.and_eq_true, decide_eq_true_eq] at this
+    exact ⟨this.1.1.1, this.1.1.2, this.1.2, this.2.1, this.2.2⟩
+  · intro c hc
+    have := allLt_spec (allLt_spec border_all h12 hh) c hc
+    simp only [Bool.and_eq_true, decide_eq_true_eq] at this
+    exact ⟨this.1.1.1, this.1.1.2, this.1.2, this.2.1, this.2.2⟩
+
+/-- Byte 29 holds the interrupt mode (bits 0-1) and the issue-2 flag (bit 2): each setter stores its
+value's low bits and leaves the other field and bits 3-7 alone. -/
+theorem im_and_issue2_share_byte29 (h29 v : Nat) (hh : h29 < 256) (hv : v < 8) :
+    (readIm (writeIm h29 v) = (v : Int) % 4 ∧ readIssue2 (writeIm h29 v) = readIssue2 h29 ∧
+      writeIm h29 v / 8 = (h29 : Int) / 8) ∧
+    (readIssue2 (writeIssue2 h29 v) = (v : Int) % 2 ∧ readIm (writeIssue2 h29 v) = readIm h29 ∧
+      writeIssue2 h29 v / 8 = (h29 : Int) / 8) := by
+  have h1 := allLt_spec (allLt_spec im_all h29 hh) v hv
+  have h2 := allLt_spec (allLt_spec issue2_all h29 hh) v hv
+  simp only [Bool.and_eq_true, decide_eq_true_eq] at h1 h2
+  exact ⟨⟨h1.1.1.1, h1.1.1.2, h1.1.2⟩, ⟨h2.1.1.1, h2.1.1.2, h2.1.2⟩⟩
+
+-- concrete values taken from real files
+example : z80WriteT 69888 34943 = (0, 0, 0) := by decide
+example : z80WriteT 69888 0 = (63, 68, 3) := by decide
+example : z80ReadT 69888 (63, 68, 3) = 0 := by decide
+example : writeR 0 200 = (200, 1) := by decide
+example : writeBorder 255 0 = 241 := by decide
+
+end Header
+
+/-! ## poke / move / patch: exactly the named cells change
+
+Model: `SkoolVerif/Model/SnapEdit.lean`.  (a) a flat Python list (no `banks` attribute),
+(b) a `Memory` (banks + four 16K windows).  Observation on a `Memory`: `m.cell o j` (cell `j` of
+list object `o`, `none` = no such cell) and `m.at a` (content of flat address `a`). -/
+section Edit
+open SnapEdit
+
+/-- POKE on a list: the list keeps its length; exactly the cells `a, a+c, a+2c, … ≤ b` change, each
+by the stated operator; nothing is poked twice. -/
+theorem poke_frame_flat (l l' : List Nat) (s : PokeSpec) (hp : s.page = none)
+    (h : pokeFlat l s = .ok l') :
+    l'.length = l.length ∧ 0 < s.step ∧
+    ∀ j, l'[j]? = if InRange s.addr1 s.addr2 s.step j then (l[j]?).map (pokeF s.op s.value) else l[j]? := by
+  simp only [pokeFlat, hp] at h
+  split at h
+  · cases h
+  · rename_i hs
+    have hs : 0 < s.step := by omega
+    obtain ⟨h1, h2⟩ := pokeList_nodup _ l l' (pyRange_nodup _ _ _ hs) h
+    refine ⟨h1, hs, fun j => ?_⟩
+    rw [h2 j]
+    simp only [mem_pokeRange hs]
+
+/-- POKE on a list raises exactly when the step is 0 (`ValueError`) or a named address is outside
+the list (`IndexError`). -/
+theorem poke_flat_raises_iff (l : List Nat) (s : PokeSpec) (hp : s.page = none) :
+    (∃ e, pokeFlat l s = .error e) ↔
+      s.step = 0 ∨ ∃ j, InRange s.addr1 s.addr2 s.step j ∧ l.length ≤ j := by
+  simp only [pokeFlat, hp]
+  by_cases hs : s.step = 0
+  · simp [hs]
+  · have hs' : 0 < s.step := by omega
+    simp only [hs, if_false, false_or, pokeList_error]
+    constructor
+    · rintro ⟨i, hi, hl⟩; exact ⟨i, (mem_pokeRange hs').1 hi, hl⟩
+    · rintro ⟨i, hi, hl⟩; exact ⟨i, (mem_pokeRange hs').2 hi, hl⟩
+
+/-- On an object without `banks` (a list) every bank-prefixed spec is ignored. -/
+theorem paged_specs_ignored_on_list (l : List Nat) (p : Nat) :
+    (∀ s : PokeSpec, s.page = some p → pokeFlat l s = .ok l) ∧
+    (∀ s : MoveSpec, s.srcPage = some p → moveFlat l s = l) ∧
+    (∀ (s : PatchSpec) data, s.page = some p → patchFlat l s data = l) := by
+  refine ⟨fun s h => ?_, fun s h => ?_, fun s data h => ?_⟩ <;> simp [pokeFlat, moveFlat, patchFlat, h]
+
+/-- MOVE on a list, both ranges inside the list: the destination range receives the OLD source range
+(overlapping ranges included), every other cell and the length are unchanged. -/
+theorem move_frame_flat (l : List Nat) (s : MoveSpec) (hp : s.srcPage = none)
+    (hsrc : s.src + s.length ≤ l.length) (hdst : s.dest + s.length ≤ l.length) :
+    (moveFlat l s).length = l.length ∧
+    ∀ j, (moveFlat l s)[j]? =
+      if s.dest ≤ j ∧ j < s.dest + s.length then l[s.src + (j - s.dest)]? else l[j]? := by
+  simp only [moveFlat, hp]
+  have hv : (pySlice l s.src (s.src + s.length)).length = s.length := by rw [pySlice_length]; omega
+  obtain ⟨h1, h2⟩ := pySliceSet_inRange l s.dest s.length _ hv hdst
+  refine ⟨h1, fun j => ?_⟩
+  rw [h2 j]
+  by_cases hj : s.dest ≤ j ∧ j < s.dest + s.length
+  · have : s.src + (j - s.dest) < s.src + s.length := by omega
+    simp [hj, pySlice_getElem?, this]
+  · simp [hj]
+
+/-- MOVE on a list in general is Python slice assignment: the list is *resized* when a range runs
+past the end (exact length). -/
+theorem move_flat_length (l : List Nat) (s : MoveSpec) (hp : s.srcPage = none) :
+    (moveFlat l s).length =
+      min s.dest l.length + (min (s.src + s.length) l.length - s.src) + (l.length - (s.dest + s.length)) := by
+  simp only [moveFlat, hp, pySliceSet_length, pySlice_length]
+  have : max s.dest (s.dest + s.length) = s.dest + s.length := by omega
+  rw [this]
+
+/-- PATCH on a list inside the list: exactly the cells `a … a+len-1` receive the file's bytes. -/
+theorem patch_frame_flat (l : List Nat) (s : PatchSpec) (data : List Nat) (hp : s.page = none)
+    (hlen : data.length ≤ 49152) (hin : s.addr + data.length ≤ l.length) :
+    (patchFlat l s data).length = l.length ∧
+    ∀ j, (patchFlat l s data)[j]? =
+      if s.addr ≤ j ∧ j < s.addr + data.length then data[j - s.addr]? else l[j]? := by
+  have ht : data.take 49152 = data := List.take_of_length_le hlen
+  simp only [patchFlat, hp, ht]
+  exact pySliceSet_inRange l s.addr data.length data rfl hin
+
+/-- At most 49152 bytes of a patch file are used. -/
+theorem patch_reads_48k (l : List Nat) (m : Mem) (s : PatchSpec) (data : List Nat) :
+    patchFlat l s data = patchFlat l s (data.take 49152) ∧
+    patchMem m s data = patchMem m s (data.take 49152) := by
+  simp [patchFlat, patchMem, List.take_take]
+
+/-! ### (b) Memory, bank-prefixed specs -/
+
+/-- POKE `p:a-b-c,v` on a `Memory`: only list object `banks[p % 8]` changes; cell `j` of it is poked
+once for every named address `N` with `N % 16384 = j`; every other bank, the ROM scratch window and
+the window map are unchanged. -/
+theorem poke_frame_bank (m m' : Mem) (s : PokeSpec) (p : Nat) (hp : s.page = some p)
+    (h : pokeMem m s = .ok m') :
+    (∀ a, m'.loc a = m.loc a) ∧ m'.banks.length = m.banks.length ∧
+    ∀ o j, m'.cell o j =
+      if o = .bank (p % 8) then
+        (m.cell o j).map (iter (pokeF s.op s.value)
+          (((pyRange s.addr1 (s.addr2 + 1) s.step).map (· % 0x4000)).count j))
+      else m.cell o j := by
+  simp only [pokeMem, hp] at h
+  have triv : (∀ a, m.loc a = m.loc a) ∧ m.banks.length = m.banks.length ∧
+      ∀ o j, m.cell o j = if o = .bank (p % 8) then
+        (m.cell o j).map (iter (pokeF s.op s.value) 0) else m.cell o j := by
+    refine ⟨fun _ => rfl, rfl, fun o j => ?_⟩
+    cases m.cell o j <;> simp [iter]
+  split at h
+  · cases h
+  · -- `if bank:` with bank = None
+    rename_i hb
+    cases h
+    refine ⟨fun _ => rfl, rfl, fun o j => ?_⟩
+    by_cases ho : o = .bank (p % 8)
+    · subst ho; simp [Mem.cell, Mem.obj, hb]
+    · simp [ho]
+  · rename_i bank hb
+    split at h
+    · -- `if bank:` with an empty list
+      rename_i he
+      cases h
+      refine ⟨fun _ => rfl, rfl, fun o j => ?_⟩
+      by_cases ho : o = .bank (p % 8)
+      · subst ho; simp [Mem.cell, Mem.obj, hb, he]
+      · simp [ho]
+    · split at h
+      · cases h
+      · split at h
+        · cases h
+        · rename_i bank' hpk
+          cases h
+          have hobj : m.obj (.bank (p % 8)) = some bank := (obj_bank m _ _).2 hb
+          obtain ⟨_, _, h3⟩ := pokeList_ok _ bank bank' hpk
+          refine ⟨fun a => loc_setObj _ _ _ _, banks_length_setObj _ _ _, fun o j => ?_⟩
+          rw [cell_setObj m _ bank bank' hobj]
+          by_cases ho : o = .bank (p % 8)
+          · subst ho; simp [h3 j, Mem.cell, hobj]
+          · simp [ho]
+
+/-- When the range is shorter than a bank (`b < a + 16384`) no cell is poked twice: exactly the cells
+`N % 16384` of bank `p % 8` change, each by the stated operator. -/
+theorem poke_frame_bank_once (m m' : Mem) (s : PokeSpec) (p : Nat) (hp : s.page = some p)
+    (hs : 0 < s.step) (hspan : s.addr2 < s.addr1 + 0x4000) (h : pokeMem m s = .ok m') (o : Obj) (j : Nat) :
+    ((o = .bank (p % 8) ∧ ∃ x, InRange s.addr1 s.addr2 s.step x ∧ x % 0x4000 = j) →
+      m'.cell o j = (m.cell o j).map (pokeF s.op s.value)) ∧
+    (¬ (o = .bank (p % 8) ∧ ∃ x, InRange s.addr1 s.addr2 s.step x ∧ x % 0x4000 = j) →
+      m'.cell o j = m.cell o j) := by
+  rw [(poke_frame_bank m m' s p hp h).2.2 o j, (pokeRange_mod_nodup _ _ _ hs hspan).count]
+  have hmem := @mem_map_mod s.addr1 s.addr2 s.step j hs
+  by_cases ho : o = .bank (p % 8)
+  · by_cases hx : j ∈ (pyRange s.addr1 (s.addr2 + 1) s.step).map (· % 0x4000)
+    · have hx' := hmem.1 hx
+      simp only [ho, hx, hx', if_true, and_self, not_true, false_imp_iff, and_true, true_imp_iff]
+      cases m.cell (.bank (p % 8)) j <;> simp [iter]
+    · have hx' : ¬ ∃ x, InRange s.addr1 s.addr2 s.step x ∧ x % 0x4000 = j := fun h' => hx (hmem.2 h')
+      simp only [ho, hx, hx', if_true, if_false, and_false, not_false_iff, false_imp_iff, true_and, true_imp_iff]
+      cases m.cell (.bank (p % 8)) j <;> simp [iter]
+  · simp [ho]
+
+/-- MOVE `s:src,n,d:dest` on a `Memory` with 16K banks: the block is cut at the end of either bank
+(`moveLen`); cells `dest%16384 …` of `banks[d % 8]` receive the OLD cells `src%16384 …` of
+`banks[s % 8]` (same bank and overlapping ranges included); every other cell of every bank, the ROM
+window and the window map are unchanged, and the destination bank stays 16K long.
+`s.destPage` is the page after defaulting (see `move_default_dest_bank`). -/
+theorem move_frame_bank (m m' : Mem) (s : MoveSpec) (sp dp : Nat) (sb db : List Nat)
+    (hsp : s.srcPage = some sp) (hdp : s.destPage = some dp)
+    (hsb : m.banks[sp % 8]? = some (some sb)) (hdb : m.banks[dp % 8]? = some (some db))
+    (hsl : sb.length = 0x4000) (hdl : db.length = 0x4000)
+    (h : moveMem m s = .ok m') :
+    (∀ a, m'.loc a = m.loc a) ∧ m'.banks.length = m.banks.length ∧
+    (∃ db', m'.obj (.bank (dp % 8)) = some db' ∧ db'.length = 0x4000) ∧
+    ∀ o j, m'.cell o j =
+      if o = .bank (dp % 8) ∧ s.dest % 0x4000 ≤ j ∧ j < s.dest % 0x4000 + moveLen s then
+        sb[s.src % 0x4000 + (j - s.dest % 0x4000)]?
+      else m.cell o j := by
+  have hne1 : sb ≠ [] := by intro h'; rw [h'] at hsl; cases hsl
+  have hne2 : db ≠ [] := by intro h'; rw [h'] at hdl; cases hdl
+  simp only [moveMem, hsp, hdp, hsb, hdb, hne1, hne2, or_self, if_false, Except.ok.injEq] at h
+  subst h
+  have hobj : m.obj (.bank (dp % 8)) = some db := (obj_bank m _ _).2 hdb
+  have hs0 : s.src % 0x4000 < 0x4000 := Nat.mod_lt _ (by decide)
+  have hd0 : s.dest % 0x4000 < 0x4000 := Nat.mod_lt _ (by decide)
+  have hn1 : s.src % 0x4000 + moveLen s ≤ sb.length := by unfold moveLen; omega
+  have hn2 : s.dest % 0x4000 + moveLen s ≤ db.length := by unfold moveLen; omega
+  have hv : (pySlice sb (s.src % 0x4000) (s.src % 0x4000 + moveLen s)).length = moveLen s := by
+    rw [pySlice_length]; omega
+  obtain ⟨h1, h2⟩ := pySliceSet_inRange db (s.dest % 0x4000) (moveLen s) _ hv hn2
+  refine ⟨fun a => loc_setObj _ _ _ _, banks_length_setObj _ _ _,
+    ⟨_, obj_setObj_same m _ db _ hobj, by rw [h1, hdl]⟩, fun o j => ?_⟩
+  rw [cell_setObj m _ db _ hobj]
+  by_cases ho : o = .bank (dp % 8)
+  · subst ho
+    rw [h2 j]
+    by_cases hj : s.dest % 0x4000 ≤ j ∧ j < s.dest % 0x4000 + moveLen s
+    · have : s.src % 0x4000 + (j - s.dest % 0x4000) < s.src % 0x4000 + moveLen s := by omega
+      simp [hj, pySlice_getElem?, this]
+    · simp [hj, Mem.cell, hobj]
+  · simp [ho]
+
+/-- The whole block is copied exactly when both ranges lie inside their banks. -/
+theorem moveLen_full (s : MoveSpec) :
+    moveLen s = s.length ↔ s.src % 0x4000 + s.length ≤ 0x4000 ∧ s.dest % 0x4000 + s.length ≤ 0x4000 := by
+  have hs0 : s.src % 0x4000 < 0x4000 := Nat.mod_lt _ (by decide)
+  have hd0 : s.dest % 0x4000 < 0x4000 := Nat.mod_lt _ (by decide)
+  unfold moveLen; omega
+
+/-- `if src_bank and dest_bank:` — a MOVE that names an absent (48K) or empty bank does nothing. -/
+theorem move_bank_absent_noop (m : Mem) (s : MoveSpec) (sp dp : Nat)
+    (hsp : s.srcPage = some sp) (hdp : s.destPage = some dp)
+    (hlen : 8 ≤ m.banks.length)
+    (habs : m.banks[sp % 8]? = some none ∨ m.banks[dp % 8]? = some none) :
+    moveMem m s = .ok m := by
+  have h1 : sp % 8 < m.banks.length := by omega
+  have h2 : dp % 8 < m.banks.length := by omega
+  simp only [moveMem, hsp, hdp, List.getElem?_eq_getElem h1, List.getElem?_eq_getElem h2]
+  rw [List.getElem?_eq_getElem h1, List.getElem?_eq_getElem h2] at habs
+  rcases habs with habs | habs
+  · have : m.banks[sp % 8] = none := by simpa using habs
+    rw [this]
+  · have : m.banks[dp % 8] = none := by simpa using habs
+    rw [this]; cases m.banks[sp % 8] <;> rfl
+
+/-- A `Memory` built from a flat 64K image (bin2sna without `--page`: `banks = [None]*8`) ignores
+bank-prefixed POKEs and MOVEs, exactly like a 48K snapshot ("128K only"). -/
+theorem paged_specs_ignored_without_banks (rom w1 w2 w3 : List Nat) (p : Nat) :
+    (∀ s : PokeSpec, s.page = some p → pokeMem (Mem.ofFlat rom w1 w2 w3) s = .ok (Mem.ofFlat rom w1 w2 w3)) ∧
+    (∀ (s : MoveSpec) (dp : Nat), s.srcPage = some p → s.destPage = some dp →
+      moveMem (Mem.ofFlat rom w1 w2 w3) s = .ok (Mem.ofFlat rom w1 w2 w3)) := by
+  have hb : ∀ q : Nat, (Mem.ofFlat rom w1 w2 w3).banks[q % 8]? = some none := by
+    intro q
+    have hq : q % 8 < 8 := Nat.mod_lt _ (by decide)
+    simp only [Mem.ofFlat]
+    rw [List.getElem?_append_left (by simpa using hq), List.getElem?_replicate, if_pos hq]
+  constructor
+  · intro s hs
+    simp only [pokeMem, hs, hb p]
+  · intro s dp hs hd
+    exact move_bank_absent_noop _ s p dp hs hd (by simp [Mem.ofFlat]) (.inl (hb p))
+
+/-- PATCH `p:a,file` on a `Memory`: `min(16384 - a%16384, len)` bytes of the file land at offset
+`a % 16384` of `banks[p % 8]` and nowhere else; a 16K bank keeps its length (the patch is cut at
+the end of the bank). -/
+theorem patch_frame_bank (m m' : Mem) (s : PatchSpec) (data : List Nat) (p : Nat) (bank : List Nat)
+    (hp : s.page = some p) (hb : m.banks[p % 8]? = some (some bank)) (hbl : bank.length = 0x4000)
+    (hlen : data.length ≤ 49152) (h : patchMem m s data = .ok m') :
+    (∀ a, m'.loc a = m.loc a) ∧ m'.banks.length = m.banks.length ∧
+    (∃ bank', m'.obj (.bank (p % 8)) = some bank' ∧ bank'.length = 0x4000) ∧
+    ∀ o j, m'.cell o j =
+      if o = .bank (p % 8) ∧ s.addr % 0x4000 ≤ j ∧ j < s.addr % 0x4000 + data.length ∧ j < 0x4000 then
+        data[j - s.addr % 0x4000]?
+      else m.cell o j := by
+  have ht : data.take 49152 = data := List.take_of_length_le hlen
+  simp only [patchMem, hp, hb, ht, Except.ok.injEq] at h
+  subst h
+  have hobj : m.obj (.bank (p % 8)) = some bank := (obj_bank m _ _).2 hb
+  have hd : s.addr % 0x4000 < 0x4000 := Nat.mod_lt _ (by decide)
+  have hv : (data.take (min (0x4000 - s.addr % 0x4000) data.length)).length
+      = min (0x4000 - s.addr % 0x4000) data.length := by rw [List.length_take]; omega
+  obtain ⟨h1, h2⟩ := pySliceSet_inRange bank (s.addr % 0x4000) _ _ hv (by omega)
+  refine ⟨fun a => loc_setObj _ _ _ _, banks_length_setObj _ _ _,
+    ⟨_, obj_setObj_same m _ bank _ hobj, by rw [h1, hbl]⟩, fun o j => ?_⟩
+  rw [cell_setObj m _ bank _ hobj]
+  by_cases ho : o = .bank (p % 8)
+  · subst ho
+    rw [h2 j]
+    by_cases hj : s.addr % 0x4000 ≤ j ∧ j < s.addr % 0x4000 + data.length ∧ j < 0x4000
+    · have h' : s.addr % 0x4000 ≤ j ∧ j < s.addr % 0x4000 + min (0x4000 - s.addr % 0x4000) data.length := by omega
+      have h'' : j - s.addr % 0x4000 < min (0x4000 - s.addr % 0x4000) data.length := by omega
+      simp [hj, h', h'']
+    · have h' : ¬ (s.addr % 0x4000 ≤ j ∧ j < s.addr % 0x4000 + min (0x4000 - s.addr % 0x4000) data.length) := by omega
+      simp [hj, h', Mem.cell, hobj]
+  · simp [ho]
+
+/-- PATCH has no `if bank:` guard: naming an absent bank (48K snapshot) raises TypeError. -/
+theorem patch_bank_absent_raises (m : Mem) (s : PatchSpec) (data : List Nat) (p : Nat)
+    (hp : s.page = some p) (hb : m.banks[p % 8]? = some none) :
+    patchMem m s data = .error .type := by
+  simp [patchMem, hp, hb]
+
+end Edit
+
+/-! ### (b) Memory, specs without a bank prefix (through the four 16K windows) -/
+section EditWindows
+open SnapEdit
+
+/-- POKE without bank prefix on a `Memory`, general form: every list cell is poked once per named
+address that maps to it (windows may alias: bank 2 or 5 paged in at 0xC000); cells that no named
+address maps to, in any bank, are unchanged. -/
+theorem poke_frame_mem (m m' : Mem) (s : PokeSpec) (hp : s.page = none) (h : pokeMem m s = .ok m') :
+    0 < s.step ∧ (∀ a, m'.loc a = m.loc a) ∧ m'.banks.length = m.banks.length ∧
+    ∀ o j, m'.cell o j = (m.cell o j).map (iter (pokeF s.op s.value)
+      (((pyRange s.addr1 (s.addr2 + 1) s.step).map m.loc).count (some (o, j)))) := by
+  simp only [pokeMem, hp] at h
+  split at h
+  · cases h
+  · rename_i hs
+    exact ⟨by omega, pokeAll_ok _ m m' h⟩
+
+/-- With three different banks in the three RAM windows and the range inside 64K: exactly the named
+addresses change, each once, by the stated operator — and no cell outside the windows changes. -/
+theorem poke_frame_mem_once (m m' : Mem) (s : PokeSpec) (hp : s.page = none) (hi : m.LocInj)
+    (hr : s.addr2 < 0x10000) (h : pokeMem m s = .ok m') :
+    (∀ a, a < 0x10000 → m'.at a =
+      if InRange s.addr1 s.addr2 s.step a then (m.at a).map (pokeF s.op s.value) else m.at a) ∧
+    (∀ o j, (∀ x, m.loc x ≠ some (o, j)) → m'.cell o j = m.cell o j) := by
+  obtain ⟨hs, hloc, _, hcell⟩ := poke_frame_mem m m' s hp h
+  have hnd : ((pyRange s.addr1 (s.addr2 + 1) s.step).map m.loc).Nodup := by
+    rw [List.Nodup, List.pairwise_map]
+    refine List.Pairwise.imp_of_mem ?_ (pyRange_nodup _ _ _ hs)
+    intro x y hx hy hne h'
+    rw [mem_pokeRange hs] at hx hy
+    exact hne (loc_inj m hi x y (by have := hx.2.1; omega) (by have := hy.2.1; omega) h')
+  constructor
+  · intro a ha
+    obtain ⟨o, ho⟩ := loc_lt m a ha
+    simp only [Mem.at, hloc a, ho, hcell o, hnd.count]
+    have hmem : some (o, a % 0x4000) ∈ (pyRange s.addr1 (s.addr2 + 1) s.step).map m.loc ↔
+        InRange s.addr1 s.addr2 s.step a := by
+      rw [List.mem_map]
+      constructor
+      · rintro ⟨x, hx, hx'⟩
+        have hxr := (mem_pokeRange hs).1 hx
+        have : x = a := loc_inj m hi x a (by have := hxr.2.1; omega) ha (by rw [hx', ho])
+        rw [← this]; exact hxr
+      · intro hin; exact ⟨a, (mem_pokeRange hs).2 hin, ho⟩
+    by_cases hin : InRange s.addr1 s.addr2 s.step a
+    · simp only [hmem.2 hin, hin, if_true]; cases m.cell o (a % 0x4000) <;> simp [iter]
+    · have : ¬ some (o, a % 0x4000) ∈ (pyRange s.addr1 (s.addr2 + 1) s.step).map m.loc := fun h' => hin (hmem.1 h')
+      simp only [this, hin, if_false]; cases m.cell o (a % 0x4000) <;> simp [iter]
+  · intro o j hno
+    rw [hcell o j]
+    have : ((pyRange s.addr1 (s.addr2 + 1) s.step).map m.loc).count (some (o, j)) = 0 := by
+      rw [List.count_eq_zero, List.mem_map]
+      rintro ⟨x, _, hx⟩; exact hno x hx
+    rw [this]; cases m.cell o j <;> simp [iter]
+
+/-- MOVE without bank prefix on a `Memory` (three different banks in the windows, both ranges inside
+64K): the destination addresses receive the OLD contents of the source addresses (overlap included),
+every other address and every cell outside the windows are unchanged. -/
+theorem move_frame_mem (m m' : Mem) (s : MoveSpec) (hp : s.srcPage = none) (hi : m.LocInj)
+    (hsrc : s.src + s.length ≤ 0x10000) (hdst : s.dest + s.length ≤ 0x10000)
+    (h : moveMem m s = .ok m') :
+    (∀ a, m'.loc a = m.loc a) ∧
+    (∀ a, a < 0x10000 → m'.at a =
+      if s.dest ≤ a ∧ a < s.dest + s.length then m.at (s.src + (a - s.dest)) else m.at a) ∧
+    (∀ o j, (∀ x, m.loc x ≠ some (o, j)) → m'.cell o j = m.cell o j) := by
+  simp only [moveMem, hp, Mem.getSlice, Mem.setSlice] at h
+  have hmin : min (s.src + s.length) 0x10000 = s.src + s.length := by omega
+  rw [hmin] at h
+  cases hg : m.getAll (upto s.src (s.src + s.length)) with
+  | error e => simp [hg] at h
+  | ok vals =>
+    simp only [hg] at h
+    obtain ⟨hvl, hvals⟩ := getAll_ok m _ vals hg
+    rw [upto_length] at hvl
+    obtain ⟨hloc, _, hcell⟩ := setAll_ok _ vals m m' h
+    have hnd := upto_map_loc_nodup m hi s.dest s.length hdst
+    refine ⟨hloc, fun a ha => ?_, fun o j hno => ?_⟩
+    · obtain ⟨o, ho⟩ := loc_lt m a ha
+      simp only [Mem.at, hloc a, ho, hcell o]
+      by_cases hin : s.dest ≤ a ∧ a < s.dest + s.length
+      · have hk : a - s.dest < (upto s.dest (s.dest + s.length)).length := by rw [upto_length]; omega
+        have hget : (upto s.dest (s.dest + s.length))[a - s.dest] = a := by
+          have := upto_getElem? s.dest (s.dest + s.length) (a - s.dest)
+          rw [List.getElem?_eq_getElem hk] at this
+          have hlt : a - s.dest < s.dest + s.length - s.dest := by omega
+          simp only [hlt, if_true, Option.some.injEq] at this
+          omega
+        rw [lastWrite_at m.loc _ _ vals _ (a - s.dest) hk hnd (by omega) (by rw [hget, ho])]
+        have hk2 : a - s.dest < (upto s.src (s.src + s.length)).length := by rw [upto_length]; omega
+        have hget2 : (upto s.src (s.src + s.length))[a - s.dest] = s.src + (a - s.dest) := by
+          have := upto_getElem? s.src (s.src + s.length) (a - s.dest)
+          rw [List.getElem?_eq_getElem hk2] at this
+          have hlt : a - s.dest < s.src + s.length - s.src := by omega
+          simp only [hlt, if_true, Option.some.injEq] at this
+          exact this
+        have := hvals (a - s.dest) hk2
+        rw [hget2] at this
+        simp only [hin, and_self, if_true, ← this, Mem.at]
+      · rw [lastWrite_not_target]
+        · simp [hin]
+        · intro x hx hx'
+          rw [mem_upto] at hx
+          have : x = a := loc_inj m hi x a (by omega) ha (by rw [hx', ho])
+          omega
+    · rw [hcell o j, lastWrite_not_target _ _ _ _ _ (fun x _ => hno x)]
+
+/-- PATCH without bank prefix on a `Memory` (three different banks in the windows, inside 64K):
+exactly the addresses `a … a+len-1` receive the file's bytes. -/
+theorem patch_frame_mem (m m' : Mem) (s : PatchSpec) (data : List Nat) (hp : s.page = none)
+    (hi : m.LocInj) (hlen : data.length ≤ 49152) (hin : s.addr + data.length ≤ 0x10000)
+    (h : patchMem m s data = .ok m') :
+    (∀ a, m'.loc a = m.loc a) ∧
+    (∀ a, a < 0x10000 → m'.at a =
+      if s.addr ≤ a ∧ a < s.addr + data.length then data[a - s.addr]? else m.at a) ∧
+    (∀ o j, (∀ x, m.loc x ≠ some (o, j)) → m'.cell o j = m.cell o j) := by
+  have ht : data.take 49152 = data := List.take_of_length_le hlen
+  simp only [patchMem, hp, ht, Mem.setSlice] at h
+  obtain ⟨hloc, _, hcell⟩ := setAll_ok _ data m m' h
+  have hnd := upto_map_loc_nodup m hi s.addr data.length hin
+  refine ⟨hloc, fun a ha => ?_, fun o j hno => ?_⟩
+  · obtain ⟨o, ho⟩ := loc_lt m a ha
+    simp only [Mem.at, hloc a, ho, hcell o]
+    by_cases hr : s.addr ≤ a ∧ a < s.addr + data.length
+    · have hk : a - s.addr < (upto s.addr (s.addr + data.length)).length := by rw [upto_length]; omega
+      have hget : (upto s.addr (s.addr + data.length))[a - s.addr] = a := by
+        have := upto_getElem? s.addr (s.addr + data.length) (a - s.addr)
+        rw [List.getElem?_eq_getElem hk] at this
+        have hlt : a - s.addr < s.addr + data.length - s.addr := by omega
+        simp only [hlt, if_true, Option.some.injEq] at this
+        omega
+      rw [lastWrite_at m.loc _ _ data _ (a - s.addr) hk hnd (by omega) (by rw [hget, ho])]
+      simp [hr]
+    · rw [lastWrite_not_target]
+      · simp [hr]
+      · intro x hx hx'
+        rw [mem_upto] at hx
+        have : x = a := loc_inj m hi x a (by omega) ha (by rw [hx', ho])
+        omega
+  · rw [hcell o j, lastWrite_not_target _ _ _ _ _ (fun x _ => hno x)]
+
+/-- Addresses below 16384 hit the scratch ROM window only: no RAM bank changes (one write). -/
+theorem rom_write_keeps_ram (m m' : Mem) (a v : Nat) (ha : a < 0x4000) (h : m.set a v = .ok m') :
+    m'.banks = m.banks := by
+  obtain ⟨o, l, hloc, _, _, rfl⟩ := set_ok m m' a v h
+  have : a / 0x4000 = 0 := by omega
+  simp only [Mem.loc, Mem.slot, this, Option.map_some, Option.some.injEq, Prod.mk.injEq] at hloc
+  rw [← hloc.1]; rfl
+
+/-! ### spec text: the destination bank of MOVE -/
+
+/-- `src,n,dest` with no bank prefix on `dest`: the destination bank is the source bank
+(`_get_page(dest, 'move', param_str, src_page)`), whatever that is — including bank 0 and "none". -/
+theorem move_default_dest_bank (src n dest : List Char) (s : MoveSpec)
+    (hs : ',' ∉ src) (hn : ',' ∉ n) (hd : ':' ∉ dest)
+    (h : parseMove (src ++ ',' :: (n ++ ',' :: dest)) = .ok s) : s.destPage = s.srcPage := by
+  simp only [parseMove, splitFirst_append ',' src _ hs, splitFirst_append ',' n _ hn] at h
+  cases hsp : getPage src none with
+  | error e => simp [hsp] at h
+  | ok r =>
+    obtain ⟨srcPage, src'⟩ := r
+    simp only [hsp, getPage_no_colon dest srcPage hd] at h
+    split at h
+    · cases h; rfl
+    · cases h
+
+/-- An explicit destination prefix `d:` is used as given — `0:` is bank 0, not "no prefix". -/
+theorem move_explicit_dest_bank (src n pg dest : List Char) (d : Nat) (s : MoveSpec)
+    (hs : ',' ∉ src) (hn : ',' ∉ n) (hpg : ':' ∉ pg) (hd : getIntParam pg false = some d)
+    (h : parseMove (src ++ ',' :: (n ++ ',' :: (pg ++ ':' :: dest))) = .ok s) : s.destPage = some d := by
+  simp only [parseMove, splitFirst_append ',' src _ hs, splitFirst_append ',' n _ hn] at h
+  cases hsp : getPage src none with
+  | error e => simp [hsp] at h
+  | ok r =>
+    obtain ⟨srcPage, src'⟩ := r
+    simp only [hsp, getPage_prefix pg dest srcPage d hpg hd] at h
+    split at h
+    · cases h; rfl
+    · cases h
+
+/-- After `parseMove`, a source prefix implies a destination page (so `None % 8` cannot occur). -/
+theorem move_src_prefix_gives_dest (spec : List Char) (s : MoveSpec) (h : parseMove spec = .ok s)
+    (hsrc : s.srcPage.isSome) : s.destPage.isSome := by
+  simp only [parseMove] at h
+  split at h
+  · cases h
+  · split at h
+    · cases h
+    · split at h
+      · cases h
+      · rename_i srcPage src' hsp
+        split at h
+        · cases h
+        · rename_i destPage dest' hdp
+          split at h
+          · cases h
+            simp only at hsrc ⊢
+            simp only [getPage] at hdp
+            split at hdp
+            · split at hdp
+              · cases hdp; rfl
+              · cases hdp
+            · cases hdp; exact hsrc
+          · cases h
+
+/-! ### a bank-prefixed MOVE never resizes a bank -/
+
+/-- Every MOVE (any spec, any memory whose banks are 16K lists) leaves every bank a 16K list:
+a range that runs past the end of its bank is cut there (this was a defect: the destination bank
+used to be resized by list slice assignment, and the snapshot written could not be read back). -/
+theorem move_keeps_bank_size (m m' : Mem) (s : MoveSpec) (sp : Nat) (hsp : s.srcPage = some sp)
+    (h16 : ∀ (k : Nat) (b : List Nat), m.banks[k]? = some (some b) → b.length = 0x4000)
+    (h : moveMem m s = .ok m') :
+    ∀ (k : Nat) (b : List Nat), m'.banks[k]? = some (some b) → b.length = 0x4000 := by
+  intro k b hk
+  simp only [moveMem, hsp] at h
+  split at h
+  · cases h
+  · rename_i srcBank hsb
+    split at h
+    · cases h
+    · rename_i dp hdp
+      split at h
+      · cases h
+      · rename_i destBank hdb
+        split at h
+        · rename_i sb db
+          split at h
+          · cases h; exact h16 k b hk
+          · rename_i hne
+            have hne' : sb ≠ [] ∧ db ≠ [] := by
+              constructor
+              · intro h'; exact hne (.inl h')
+              · intro h'; exact hne (.inr h')
+            have hmv : moveMem m s = .ok m' := by
+              simp only [moveMem, hsp, hdp, hsb, hdb, hne'.1, hne'.2, or_self, if_false]
+              exact h
+            obtain ⟨_, _, ⟨db', hobj, hlen⟩, _⟩ := move_frame_bank m m' s sp dp sb db hsp hdp hsb hdb
+              (h16 _ _ hsb) (h16 _ _ hdb) hmv
+            by_cases hkd : k = dp % 8
+            · subst hkd
+              rw [(obj_bank m' _ _).1 hobj] at hk
+              cases hk; exact hlen
+            · cases h
+              simp only [Mem.setObj, List.getElem?_set_ne (Ne.symm hkd)] at hk
+              exact h16 k b hk
+        · cases h; exact h16 k b hk
+
+/-! ### non-vacuity: small concrete memories (the model does not fix the bank size) -/
+
+private def m8 : Mem :=
+  ⟨[0, 0], [some [10, 11, 12, 13], some [20, 21], some [30, 31], some [40, 41, 42, 43], some [50], some [60, 61],
+    some [70], some [80]], 5, 2, 0⟩
+
+-- source bank 3, explicit destination bank 0
+example : moveMem m8 ⟨some 3, some 0, 1, 2, 0⟩ =
+    .ok { m8 with banks := m8.banks.set 0 (some [41, 42, 12, 13]) } := by rfl
+-- source bank 0, destination prefix omitted: stays in bank 0 (overlapping ranges)
+example : moveMem m8 ⟨some 0, some 0, 0, 3, 1⟩ =
+    .ok { m8 with banks := m8.banks.set 0 (some [10, 10, 11, 12]) } := by rfl
+-- bank numbers are taken modulo 8
+example : moveMem m8 ⟨some 11, some 16, 1, 2, 0⟩ = moveMem m8 ⟨some 3, some 0, 1, 2, 0⟩ := by rfl
+-- a block is cut at the end of the bank: 16380 + 10 > 16384 gives 4 bytes
+example : moveLen ⟨some 3, some 4, 16380, 10, 0⟩ = 4 := by decide
+example : moveLen ⟨some 3, some 4, 0, 10, 0xC000 + 16383⟩ = 1 := by decide
+-- POKE with each operator in bank 0
+example : pokeMem m8 ⟨some 0, 0, 3, 2, .add, 250⟩ =
+    .ok { m8 with banks := m8.banks.set 0 (some [4, 11, 6, 13]) } := by rfl
+example : pokeMem m8 ⟨some 8, 1, 1, 1, .xor, 255⟩ =
+    .ok { m8 with banks := m8.banks.set 0 (some [10, 244, 12, 13]) } := by rfl
+-- the spec text: `3:0,16,0:100` names destination bank 0; `3:0,16,100` defaults to bank 3
+example : parseMove ['3', ':', '0', ',', '1', '6', ',', '0', ':', '1', '0', '0'] = .ok ⟨some 3, some 0, 0, 16, 100⟩ := by
+  rfl
+example : parseMove ['3', ':', '0', ',', '1', '6', ',', '1', '0', '0'] = .ok ⟨some 3, some 3, 0, 16, 100⟩ := by
+  rfl
+example : parseMove ['0', ':', '5', ',', '1', ',', '7'] = .ok ⟨some 0, some 0, 5, 1, 7⟩ := by rfl
+example : parsePoke ['7', ':', '0', 'x', '1', '0', '-', '3', '2', '-', '2', ',', '^', '5'] = .ok ⟨some 7, 16, 32, 2, .xor, 5⟩ := by
+  rfl
+-- flat list: slice assignment past the end grows the list, a short source shrinks it
+example : moveFlat [1, 2, 3, 4] ⟨none, none, 0, 2, 3⟩ = [1, 2, 3, 1, 2] := by rfl
+example : moveFlat [1, 2, 3, 4] ⟨none, none, 3, 2, 0⟩ = [4, 3, 4] := by rfl
+
+end EditWindows
 
 end C09
